@@ -198,7 +198,7 @@ theorem restoreRegs_other (r0 : Regs) (f : Frame) (i : Nat) (h : i ∉ retKeptRe
 /-- replace every generated register id / size constant by its numeral -/
 macro "vm_consts" : tactic =>
   `(tactic| simp only [regZero, regOne, regOf, regPc, regSsp, regSp, regFp, regHp, regErr, regGgas, regCgas, regBal,
-      regIs, regRet, regRetl, regFlag, regWritable, retKeptRegs] at *)
+      regIs, regRet, regRetl, regFlag, regWritable, retKeptRegs, callFrameBaseReg] at *)
 
 /-- what a successful return with a frame on top does, register by register -/
 structure RetFacts (k : RetKind) (vm vm' : VM) (frame : Frame) (rest : List Frame) : Prop where
